@@ -20,7 +20,8 @@ META = dict(
     trusted_base=['SQL three-valued logic evaluator (sqleval of this file): AND / OR / NOT / comparisons / COALESCE / IS NULL / BETWEEN / IN; WHERE keeps a row iff TRUE',
                   'a string value is represented by its length (only comparisons with the empty string occur); on Oracle the empty string is NULL',
                   'monad.nullable is accurate: a non-nullable expression is never NULL (precondition)'],
-    assumptions=['monad dispatch, joins, subqueries, aggregates, row decoding and hybrid methods are NOT covered: the translator as a whole is out of reach of per-function contracts'],
+    assumptions=['monad dispatch, joins, subqueries, aggregates, row decoding and hybrid methods are covered only by the BOUNDED family of whole queries compared with Python evaluation '
+                 '(contracts/c01_queries.py); the translator as a whole is out of reach of per-function contracts'],
 )
 DIALECTS = ['SQLite', 'PostgreSQL', 'MySQL', 'Oracle']
 T, F, N = 'T', 'F', 'N'
@@ -252,6 +253,60 @@ def _neg_spec(cfg, i, path):
     return L.And(L.Iff(n0, n1), L.Implies(L.Not(n0), L.Iff(v1, L.Not(v0))))
 
 
+# ------------------------------------------------------------------ tuple comparisons: lexicographic, as in Python
+def _tc_configs(tier):
+    return [dict(op=o, size=n, row_value_syntax=r) for o in ('<', '<=', '>', '>=', '==', '!=') for n in (2, 3) for r in (False, True)]
+
+
+def _tc_case(cfg, values):
+    I = Inputs(values)
+    M = H.model()
+    env, pre = _env(I, M, 'SQLite')
+    for c in pre: I.require(c)
+    consts = [I.int('c%d' % k) for k in range(cfg['size'])]
+
+    def setup(run):
+        H.push_translator(M, 'SQLite')
+        M.tr.row_value_syntax = cfg['row_value_syntax']
+
+    def teardown(run): H.pop_translator(M)
+
+    def call():
+        p = M.tr.namespace['p']
+        left = st.ListMonad([p.getattr(a) for a in ('i', 'j', 'id')[:cfg['size']]])
+        right = st.ListMonad([st.ConstMonad.new(c) for c in consts])
+        m = st.CmpMonad(cfg['op'], left, right)
+        cur().state['env'] = env
+        return m.getsql()[0]
+    return Case(call, dict(I.terms), I.pre, setup, teardown)
+
+
+def _lex(op, xs, ys):
+    """Python's comparison of two equally long tuples of integers"""
+    if op == '==': return L.And(*[L.Eq(a, b) for a, b in zip(xs, ys)])
+    if op == '!=': return L.Not(_lex('==', xs, ys))
+    strict = {'<': lambda a, b: a < b, '<=': lambda a, b: a < b, '>': lambda a, b: a > b, '>=': lambda a, b: a > b}[op]
+    last = {'<': lambda a, b: a < b, '<=': lambda a, b: a <= b, '>': lambda a, b: a > b, '>=': lambda a, b: a >= b}[op]
+    if len(xs) == 1: return last(xs[0], ys[0])
+    return L.Or(strict(xs[0], ys[0]), L.And(L.Eq(xs[0], ys[0]), _lex(op, xs[1:], ys[1:])))
+
+
+def _tc_spec(cfg, i, path):
+    if path.outcome != 'ret': return False
+    sql = path.value; env = path.state['env']
+    xs = [i[a] for a in ('i', 'j', 'id')[:cfg['size']]]; ys = [i['c%d' % k] for k in range(cfg['size'])]
+    want = _lex(cfg['op'], xs, ys)
+    if sql[0] in ('LT', 'LE', 'GT', 'GE') and sql[1][0] == 'ROW':
+        # SQL row-value comparison is lexicographic by the standard: the operands must be the two tuples, in order, under the same operator
+        op = {'LT': '<', 'LE': '<=', 'GT': '>', 'GE': '>='}[sql[0]]
+        a = [ev(x, env)[1] for x in sql[1][1:]]; b = [ev(x, env)[1] for x in sql[2][1:]]
+        return L.And(op == cfg['op'], len(a) == cfg['size'], L.Iff(_lex(op, a, b), want))
+    return L.Iff(keeps(sql, env), want)
+
+
+# ------------------------------------------------------------------ whole queries against Python evaluation of the same expression (bounded, real SQLite)
+from contracts import c01_queries as Q
+
 CONTRACTS = [
     Contract('truth_test_and_not', ['pony.orm.sqltranslation:NumericMixin.nonzero', 'pony.orm.sqltranslation:NumericMixin.negate', 'pony.orm.sqltranslation:StringMixin.nonzero',
                                     'pony.orm.sqltranslation:StringMixin.negate', 'pony.orm.sqltranslation:ObjectMixin.nonzero', 'pony.orm.sqltranslation:ObjectMixin.negate',
@@ -262,4 +317,8 @@ CONTRACTS = [
              [('negated_comparison_is_3VL_not_and_involutive', typed(_cmp_spec))]),
     Contract('BoolExprMonad.negate', ['pony.orm.sqltranslation:BoolExprMonad.negate', 'pony.orm.sqltranslation:NotMonad.negate', 'pony.orm.sqltranslation:NotMonad.getsql'],
              _neg_configs, _neg_case, [('negated_condition_is_3VL_not', typed(_neg_spec))]),
+    Contract('CmpMonad.tuples', 'pony.orm.sqltranslation:CmpMonad.getsql', _tc_configs, _tc_case, [('tuple_comparison_is_lexicographic', typed(_tc_spec))]),
+    Contract('queries_vs_python', ['pony.orm.sqltranslation:SQLTranslator.construct_sql_ast', 'pony.orm.sqltranslation:SQLTranslator.__init__', 'pony.orm.core:Query._actual_fetch',
+                                   'pony.orm.sqltranslation:AttrSetMonad', 'pony.orm.sqltranslation:QuerySetMonad', 'pony.orm.sqltranslation:CmpMonad.getsql'],
+             Q.configs, Q.case, [('query_result_equals_python_evaluation', Q.spec)], level='bounded', bound=Q.BOUND),
 ]
